@@ -475,6 +475,46 @@ CHECKS['C08'] = {
     'level_note': 'Trusted: __int128 / __float128 arithmetic. Not covered: orders above 6, non-integer ill-conditioned data.',
 }
 
+
+REAL_SW = ['ASINH', 'ACOSH', 'ATANH', 'EXPM1', 'LOG1P', 'ATAN2', 'HYPOT']
+CPLX_SW = ['CSQRT', 'CPOW', 'CEXP', 'CLOG', 'CSIN', 'CCOS', 'CTAN', 'CSINH', 'CCOSH', 'CTANH', 'CASIN', 'CACOS', 'CATAN', 'CASINH', 'CACOSH', 'CATANH']
+
+
+def config_set(tier, switches):
+    """(name, defines) of the build configurations: all on, all off, and in thorough every single flip from each extreme"""
+    allsw = REAL_SW + CPLX_SW
+    cfgs = [('allon', ['-DA_HAVE_%s=1' % x for x in allsw]), ('alloff', [])]
+    if tier == 'thorough':
+        for x in switches:
+            cfgs.append(('on-but-%s' % x.lower(), ['-DA_HAVE_%s=1' % y for y in allsw if y != x]))
+            cfgs.append(('off-but-%s' % x.lower(), ['-DA_HAVE_%s=1' % x]))
+    return cfgs
+
+
+def c10_jobs(tier):
+    src = ['src/complex.c', 'src/math.c', 'src/a.c']
+    libs = ['-lquadmath', '-lm']
+    jobs = []
+    for width, wd in (('f64', []), ('f32', ['-DA_SIZE_REAL=4'])):
+        for name, defs in config_set(tier, REAL_SW + CPLX_SW):
+            n = 16 if name in ('allon', 'alloff') else 4
+            jobs += grid_jobs('cplx-%s-%s' % (width, name), 'harness/cplx.cpp', src, tier, n, defs=defs + wd, libs=libs)
+    return jobs
+
+
+CHECKS['C10'] = {
+    'title': 'complex arithmetic and functions are correct in every build configuration', 'level': 'exploration', 'engine': 'grid', 'jobs': c10_jobs,
+    'rule': ('bounded-exhaustive enumeration of an argument lattice per build configuration against libquadmath (__complex128): real and imaginary parts from {0, +-m*2^e: e in {-60,-30,-10,-3,-1,0,1,3,10,30,60}, m in {1,1.25,1.5,1.9375}} plus every constant the fallback bodies branch on (1, 1.5, 0.6417, 0.1, 0.5, 2, pi/2, pi, 0.25) one ulp on either side: 125 values per axis, 15625 points per function, all four quadrants and both axes. '
+             'Functions: 32 unary functions in their two-argument and in-place forms (sqrt, exp, log, log2, log10, six trigonometric, six inverse trigonometric, six hyperbolic, six inverse hyperbolic, inv, neg, conj), abs/abs2/logabs/arg, polar, seven real-argument variants inside their real domain, and on operand pairs of a coarser lattice: add/sub/mul/div with complex, real-scalar and imaginary-scalar second operand, pow, pow_real, logb, and the inverse pairs (z*s)/s, (z*is)/(is), exp(log z), log(exp z), inv(inv z). '
+             'Tolerance per point: |lib - ref| <= 32 * (eps*|w| + spread) where spread is the change of the reference under perturbations of 4 eps |z| of the argument, i.e. eps x condition x |w| measured at that point (worst observed on the unchanged tree: 8 for pow, below 3 elsewhere). Points where the reference is discontinuous under those perturbations (branch cuts), not finite (poles, overflow) or under-/overflowing are excluded by that rule (2.8%% of the lattice). '
+             'Configurations: quick = {every A_HAVE_* switch on, every switch off} x {double, float}; thorough = additionally each of the 23 switches flipped alone from each extreme (96 configurations). distinct_nontrivial = lattice points actually judged (not excluded).'),
+    'assumptions': ['libquadmath is the reference for principal values (ISO C conventions)', 'compiled with gcc -O2 like the repository\'s RelWithDebInfo build; mixed configurations of several switches are not built, each body reaches other functions through their symbols so single flips exercise every body with both versions of each callee',
+                    'A_HAVE_CATANH is undefined unconditionally in complex.c, so catanh is always the fallback'],
+    'design_ref': '§4.C10', 'technique': 'bounded-exhaustive enumeration of an argument lattice x build configurations against quad-precision references with a measured conditioning term',
+    'level_text': 'Every complex entry point is evaluated on a 125x125 argument lattice covering magnitudes 2^-60..2^60, all quadrants, both axes and every branch constant of the fallback code +-1 ulp, in the all-libm and the all-fallback configuration for both real widths (96 configurations in thorough), and compared with quad-precision principal values using a tolerance proportional to the measured conditioning.',
+    'level_note': 'Trusted: libquadmath. Not covered: arguments between lattice points; mixed switch configurations; long double.',
+}
+
 # ---------------------------------------------------------------- manifest texts
 CHECKS['C01'].update({
     'design_ref': '§4.C01', 'technique': 'explicit-state BFS to a fixpoint over the real src/avl.c (size-bounded, unbounded history length), lock-step reference set, API-replay conformance of every state',
